@@ -96,6 +96,7 @@ class SimWorker:
         self.enqueues_this_run = 0
         self.died_by = None
         self.closed_by_pool = False
+        self.lingering = False   # dead (end marker / EOF already written) but still winding down: is_alive() is documented to be conservative
 
     # ---- what Pool uses
     @property
@@ -103,10 +104,22 @@ class SimWorker:
         return self.pipe.parent_end
 
     def is_alive(self):
-        return self.alive
+        return self.alive or self.lingering
 
     def enqueue(self, *inp):
         self.sim.at_enqueue(self, inp)
+        if not self.alive and self.lingering:
+            # what the real thread / remote workers do in that window: the input is accepted (is_alive() is true) and never looked at
+            self.sim.log('enqueued_to_lingering', self.index, inp)
+            self.sim.flags.add('enqueue_to_lingering_dead_worker')
+            self.sim.note_handed(self, inp)
+            return
+        if self.alive and (self.index, inp[-1]) in self.sim.flaky:
+            # transient failure of the transport / of a user enqueue function: raises, the worker stays alive and accepts the next attempt
+            self.sim.flaky.discard((self.index, inp[-1]))
+            self.sim.flags.add('transient_enqueue_failure')
+            self.sim.log('enqueue_failed_transiently', self.index, inp)
+            raise OSError('transient enqueue failure (simulated)')
         if not self.alive:
             self.sim.log('enqueue_raised', self.index, inp)
             self.sim.note_failed_handing(self, inp)
@@ -116,15 +129,21 @@ class SimWorker:
         self.sim.log('enqueued', self.index, inp)
         self.sim.note_handed(self, inp)
 
+    def reap(self):
+        self.lingering = False
+
     def close(self):
         self.closed_by_pool = True
+        self.lingering = False
         if self.alive:
             self._die(marker=True, why='closed')
 
     def wait(self, timeout=None):
+        self.lingering = False
         return not self.alive
 
     def terminate(self, timeout=None, force=None, **kw):
+        self.lingering = False
         if self.alive:
             self._die(marker=True, why='terminated')
         return True
@@ -142,14 +161,16 @@ class SimWorker:
         return None if self.alive else self.counter
 
     def restart(self, *a, results_pipe=None, timeout=None, **kw):
+        self.lingering = False
         if self.alive:
             self._die(marker=True, why='restart')
         self._new_incarnation(results_pipe)
         self.sim.log('restarted', self.index)
 
     # ---- simulated child side
-    def _die(self, marker, why):
+    def _die(self, marker, why, linger=False):
         self.alive = False
+        self.lingering = bool(linger)
         self.died_by = why
         self.queue.clear()
         try:
@@ -167,7 +188,7 @@ class SimWorker:
         if self.sim.is_poison(self, x):
             self.sim.log('poisoned', self.index, x)
             self.sim.note_poisoned(self, x)
-            self._die(marker=True, why='poison')
+            self._die(marker=True, why='poison', linger=self.sim.linger)
             return
         self.counter += 1
         self.sent += 1
@@ -210,6 +231,8 @@ class Sim:
         self.kill_marker = case.get('kill_marker', False)
         self.poison = {k: set(v) for k, v in case.get('poison', {}).items()}
         self.refuse = set((w, x) for w, x in case.get('refuse', []))
+        self.flaky = set((w, x) for w, x in case.get('flaky', []))
+        self.linger = bool(case.get('linger', False))
         # bookkeeping for the oracles (per run)
         self.handed = {}       # x -> list of worker indices it was accepted by
         self.failed_handing = {}
@@ -286,7 +309,7 @@ class Sim:
                 w.process_one()
             else:
                 self.kills_left -= 1
-                w._die(marker=self.kill_marker, why='killed')
+                w._die(marker=self.kill_marker, why='killed', linger=self.linger)
 
     def at_enqueue(self, w, inp):
         if not self.in_run:
